@@ -108,3 +108,4 @@ def build(eng, tier):
     serde_targets.add_value_info_target(eng)
     serde_targets.add_tensor_shape_target(eng)
     serde_targets.add_graph_initializer_target(eng)
+    serde_targets.add_graph_io_target(eng)
